@@ -1582,43 +1582,73 @@ func (c *Ctx) ruleFreshElem(rule, dir string) {
 	}
 }
 
-// R-TRIMZERO: Uint128.trimBytes drops a byte only after testing that this byte is zero.
+// R-TRIMZERO: Uint128.Bytes drops a byte of the 16-byte image only after testing that this byte is zero.
 func (c *Ctx) ruleTrimZero() {
-	f := c.fn("pkg/scale", "(*Uint128).trimBytes")
-	if f == nil {
+	root := c.fn("pkg/scale", "(*Uint128).Bytes")
+	if root == nil {
 		return
 	}
-	c.doc("R-TRIMZERO", "Uint128.trimBytes: every re-slice that shortens the 16-byte image is control-dependent on a comparison of a byte of that image with zero (the byte being dropped): a length computed any other way can cut non-zero bytes (e.g. the low half's leading zeros while the high half is non-zero)")
-	n := 0
-	eachInstr(f, func(b *ssa.BasicBlock, _ int, in ssa.Instruction) {
-		sl, ok := in.(*ssa.Slice)
-		if !ok || (sl.Low == nil && sl.High == nil) || sl.X.Type().String() != "[]byte" {
+	c.doc("R-TRIMZERO", "Uint128.Bytes and the package helpers it calls: every re-slice that shortens a byte slice is control-dependent on a comparison of a byte of that slice with zero (the byte being dropped): a length computed any other way can cut non-zero bytes (e.g. the low half's leading zeros while the high half is non-zero)")
+	seen := map[*ssa.Function]bool{}
+	var order []*ssa.Function
+	var visit func(f *ssa.Function)
+	visit = func(f *ssa.Function) {
+		if f == nil || seen[f] || len(f.Blocks) == 0 || f.Pkg != root.Pkg {
 			return
 		}
-		n++
-		guarded := false
-		for _, fc := range factsAt(b) {
-			subj, op, k, isCmp := cmpWithConst(fc.cond)
-			if !isCmp || k != 0 {
-				continue
+		seen[f] = true
+		order = append(order, f)
+		eachInstr(f, func(_ *ssa.BasicBlock, _ int, in ssa.Instruction) {
+			if call, ok := in.(*ssa.Call); ok {
+				visit(call.Call.StaticCallee())
 			}
-			o := op
-			if !fc.truth {
-				o = negOp(o)
+		})
+	}
+	visit(root)
+	n := 0
+	for _, f := range order {
+		per := 0
+		eachInstr(f, func(b *ssa.BasicBlock, _ int, in ssa.Instruction) {
+			sl, ok := in.(*ssa.Slice)
+			if !ok || (sl.Low == nil && sl.High == nil) || sl.X.Type().String() != "[]byte" {
+				return
 			}
-			if o != token.EQL {
-				continue
+			constBound := func(v ssa.Value) bool {
+				if v == nil {
+					return true
+				}
+				_, isC := constInt(v)
+				return isC
 			}
-			if u, ok := stripConv(subj).(*ssa.UnOp); ok && u.Op == token.MUL {
-				if _, ok := u.X.(*ssa.IndexAddr); ok {
-					guarded = true
+			if constBound(sl.Low) && constBound(sl.High) {
+				return // fixed windows of the 16-byte image (the two halves), not a trim
+			}
+			n++
+			per++
+			guarded := false
+			for _, fc := range factsAt(b) {
+				subj, op, k, isCmp := cmpWithConst(fc.cond)
+				if !isCmp || k != 0 {
+					continue
+				}
+				o := op
+				if !fc.truth {
+					o = negOp(o)
+				}
+				if o != token.EQL {
+					continue
+				}
+				if u, ok := stripConv(subj).(*ssa.UnOp); ok && u.Op == token.MUL {
+					if _, ok := u.X.(*ssa.IndexAddr); ok {
+						guarded = true
+					}
 				}
 			}
-		}
-		c.ob("R-TRIMZERO", fmt.Sprintf("trimBytes:drop#%d", n), sl.Pos(), guarded, "trimBytes shortens the byte image on a path where the dropped byte was not compared with zero: significant bytes can be cut, Bytes()/String()/SCALE encoding then denote a smaller number")
-	})
+			c.ob("R-TRIMZERO", fmt.Sprintf("%s:drop#%d", shortFn(f), per), sl.Pos(), guarded, shortFn(f)+" shortens the byte image on a path where the dropped byte was not compared with zero: significant bytes can be cut, Bytes()/String()/SCALE encoding then denote a smaller number")
+		})
+	}
 	if n == 0 {
-		c.ob("R-TRIMZERO", "trimBytes:drop", f.Pos(), false, "no re-slice found in trimBytes (anchor changed)")
+		c.ob("R-TRIMZERO", "Uint128.Bytes:drop", root.Pos(), false, "no trimming re-slice reachable from Uint128.Bytes (anchor changed)")
 	}
 }
 
@@ -2231,5 +2261,204 @@ func (c *Ctx) ruleProofValue() {
 	}
 	if n == 0 {
 		c.ob("R-PROOFVALUE", "walkers", token.NoPos, false, "no found-return in a proof walker (anchor changed)")
+	}
+}
+
+// R-RANGECHAIN: a range is returned only when walking up from the end block actually reaches the start block.
+func (c *Ctx) ruleRangeChain() {
+	f := c.fn(btDir, "accumulateHashesInDescedingOrder")
+	if f == nil {
+		return
+	}
+	c.doc("R-RANGECHAIN", "blocktree range queries: accumulateHashesInDescedingOrder returns a hash list only on a path where the node reached by walking the parent links up from the end node was compared with the start node (same node / same hash): two blocks on different forks are not a range, whatever their heights")
+	start := ssa.Value(f.Params[1])
+	n := 0
+	for _, r := range returnsOf(f) {
+		if len(r.Results) < 2 || !isNilConst(resultOf(r, 1)) || isNilConst(resultOf(r, 0)) {
+			continue
+		}
+		n++
+		ok := false
+		for _, fc := range factsAt(r.Block()) {
+			bo, isBin := fc.cond.(*ssa.BinOp)
+			if !isBin || (bo.Op != token.EQL && bo.Op != token.NEQ) {
+				continue
+			}
+			if fc.truth != (bo.Op == token.EQL) {
+				continue // need equality established
+			}
+			fromStart := func(v ssa.Value) bool {
+				for x := range backwardSlice(v, nil) {
+					if x == start {
+						return true
+					}
+				}
+				return false
+			}
+			if (fromStart(bo.X) && !fromStart(bo.Y)) || (fromStart(bo.Y) && !fromStart(bo.X)) {
+				ok = true
+			}
+		}
+		c.ob("R-RANGECHAIN", fmt.Sprintf("accumulateHashesInDescedingOrder:success-return#%d", n), r.Pos(), ok,
+			"the hash list is returned without checking that the walk up from the end node arrived at the start node: Range(a, b) for two siblings returns [a] and no error")
+	}
+	if n == 0 {
+		c.ob("R-RANGECHAIN", "accumulateHashesInDescedingOrder:success-return", f.Pos(), false, "no success return found (anchor changed)")
+	}
+}
+
+// R-BYNUMBER: the by-number query is bounded by the highest leaf, not by the fork-choice head.
+func (c *Ctx) ruleHashesAtNumberBound() {
+	f := c.fn(btDir, "(*BlockTree).GetHashesAtNumber")
+	if f == nil {
+		return
+	}
+	c.doc("R-BYNUMBER", "BlockTree.GetHashesAtNumber: the early `nothing at that height` return compares the requested number with the number of the HIGHEST leaf (leafMap.highestLeaf), not of the fork-choice best block (bestBlock prefers primary-slot chains and can be lower than another fork's head): blocks above the best block's height on other forks must be listed")
+	n := 0
+	eachInstr(f, func(b *ssa.BasicBlock, _ int, in ssa.Instruction) {
+		bo, ok := in.(*ssa.BinOp)
+		if !ok || !isCmp(bo.Op) || bo.Op == token.EQL || bo.Op == token.NEQ {
+			return
+		}
+		var other ssa.Value
+		if stripConv(bo.X) == ssa.Value(f.Params[1]) {
+			other = bo.Y
+		} else if stripConv(bo.Y) == ssa.Value(f.Params[1]) {
+			other = bo.X
+		} else {
+			return
+		}
+		// upper bound: derives from a leaf-map query
+		var src string
+		for v := range backwardSlice(other, nil) {
+			if cl, ok := v.(*ssa.Call); ok && cl.Call.StaticCallee() != nil {
+				switch cl.Call.StaticCallee().Name() {
+				case "bestBlock":
+					src = "bestBlock"
+				case "highestLeaf", "nodes":
+					if src != "bestBlock" {
+						src = "highestLeaf" // the highest leaf, or a maximum over all leaves
+					}
+				}
+			}
+		}
+		if src == "" {
+			return
+		}
+		n++
+		c.ob("R-BYNUMBER", fmt.Sprintf("GetHashesAtNumber:upper-bound#%d", n), bo.Pos(), src == "highestLeaf",
+			"the height bound comes from "+src+"(): with root->A(primary) and root->B->C(secondary) the best block is A (height 1) and GetHashesAtNumber(2) returns nothing instead of [C]")
+	})
+	if n == 0 {
+		// no early return on the height: the recursive collection alone is correct
+		c.ob("R-BYNUMBER", "GetHashesAtNumber:upper-bound", f.Pos(), true, "no upper-bound shortcut")
+	}
+}
+
+// R-ARRIVAL: the block tree records the arrival time it is given.
+func (c *Ctx) ruleArrivalStored() {
+	f := c.fn(btDir, "(*BlockTree).AddBlock")
+	if f == nil {
+		return
+	}
+	c.doc("R-ARRIVAL", "BlockTree.AddBlock stores its arrivalTime parameter unmodified in the new node: the fork-choice tie-break `earlier arrival wins` must run on the arrival times the caller reported, not on values adjusted to the parent's")
+	var param ssa.Value
+	for _, p := range f.Params {
+		if p.Type().String() == "time.Time" {
+			param = p
+		}
+	}
+	n := 0
+	eachInstr(f, func(_ *ssa.BasicBlock, _ int, in ssa.Instruction) {
+		st, ok := in.(*ssa.Store)
+		if !ok {
+			return
+		}
+		fa, ok := st.Addr.(*ssa.FieldAddr)
+		if !ok || fieldVar(fa) == nil || fieldVar(fa).Name() != "arrivalTime" {
+			return
+		}
+		n++
+		direct := param != nil && sameValue(st.Val, param)
+		if !direct && param != nil {
+			// a parameter whose address is taken (method calls on it) is spilled: the stored value must be a load of a cell
+			// that is only ever written with the parameter itself
+			if u, ok := st.Val.(*ssa.UnOp); ok && u.Op == token.MUL {
+				if al, ok := u.X.(*ssa.Alloc); ok {
+					all, cnt := true, 0
+					for _, r := range *al.Referrers() {
+						if s2, ok := r.(*ssa.Store); ok && s2.Addr == ssa.Value(al) {
+							cnt++
+							if s2.Val != param {
+								all = false
+							}
+						}
+					}
+					direct = all && cnt > 0
+				}
+			}
+		}
+		c.ob("R-ARRIVAL", fmt.Sprintf("AddBlock:arrivalTime-store#%d", n), st.Pos(), direct,
+			"the node's arrival time is not the value passed to AddBlock (it is adjusted on some path): two heads tied on primary count and height are then ordered by altered arrival times")
+	})
+	if n == 0 {
+		c.ob("R-ARRIVAL", "AddBlock:arrivalTime-store", f.Pos(), false, "the new node's arrivalTime is never stored (anchor changed)")
+	}
+}
+
+// R-SATSUB: vote-weight subtractions cannot wrap (the reference's VoteWeight subtraction saturates at zero).
+func (c *Ctx) ruleWeightSub(xrefOnly map[string]bool) {
+	sp := c.ssaPkg(fgDir)
+	if sp == nil {
+		return
+	}
+	c.doc("R-SATSUB", "pkg/finality-grandpa Round.update and its closures: every subtraction x - y of two vote weights (unsigned) is control-dependent on x >= y / x > y (or is the else-branch of x <= y), because the reference implementation's VoteWeight subtraction saturates at zero: an unguarded subtraction wraps to ~2^64 when more weight than tolerated equivocates and every block then looks `possible to precommit`")
+	for _, f := range allFuncs(c, sp) {
+		top := f
+		for top.Parent() != nil {
+			top = top.Parent()
+		}
+		if !strings.HasPrefix(top.Name(), "update") || top.Signature.Recv() == nil || !strings.Contains(top.Signature.Recv().Type().String(), "Round[") {
+			continue
+		}
+		n := 0
+		eachInstr(f, func(b *ssa.BasicBlock, _ int, in ssa.Instruction) {
+			bo, ok := in.(*ssa.BinOp)
+			if !ok || bo.Op != token.SUB {
+				return
+			}
+			if bt, ok := bo.Type().Underlying().(*types.Basic); !ok || bt.Info()&types.IsUnsigned == 0 {
+				return
+			}
+			if _, isC := constInt(bo.Y); isC {
+				return
+			}
+			n++
+			guarded := false
+			for _, fc := range factsAt(b) {
+				cmp, ok := fc.cond.(*ssa.BinOp)
+				if !ok || !isCmp(cmp.Op) {
+					continue
+				}
+				op := cmp.Op
+				if !fc.truth {
+					op = negOp(op)
+				}
+				x, y := cmp.X, cmp.Y
+				if sameValue(x, bo.Y) && sameValue(y, bo.X) {
+					x, y, op = y, x, flipOp(op)
+				}
+				if sameValue(x, bo.X) && sameValue(y, bo.Y) && (op == token.GEQ || op == token.GTR) {
+					guarded = true
+				}
+			}
+			key := fmt.Sprintf("%s:sub#%d", shortFn(f), n)
+			msg := fmt.Sprintf("%s computes %s - %s on unsigned vote weights with no dominating `>=` test: it wraps when the subtrahend is larger (e.g. equivocating weight above the tolerated f)", shortFn(f), describeVal(bo.X), describeVal(bo.Y))
+			if xrefOnly[key] {
+				c.xref("R-SATSUB", key, bo.Pos(), guarded, msg)
+				return
+			}
+			c.ob("R-SATSUB", key, bo.Pos(), guarded, msg)
+		})
 	}
 }
